@@ -93,6 +93,15 @@ func (e *Exec) globMatchTerm(p, s string) string {
 	e.solver.declareFun("globmatch", "(Str Str) Bool")
 	e.solver.declareFun("metafree", "(Str) Bool")
 	app := "(globmatch " + p + " " + s + ")"
+	known := false
+	for _, g := range e.globApps {
+		if g[0] == p && g[1] == s {
+			known = true
+		}
+	}
+	if !known {
+		e.globApps = append(e.globApps, [2]string{p, s})
+	}
 	key := "gm " + app
 	if !e.solver.lowered[key] {
 		e.solver.lowered[key] = true
